@@ -153,6 +153,7 @@ def init_and_train_gp(
 
     fitted = False
     training_failures = 0
+    posteriors_start = gp.posteriors
     while not fitted:
         try:
             if training_failures == 0:
@@ -182,6 +183,9 @@ def init_and_train_gp(
 
         except np.linalg.LinAlgError:
             training_failures += 1
+            # A fit that fails in its final posterior computation leaves the
+            # GP without posteriors: the next attempt starts from the ones it had
+            gp.posteriors = posteriors_start
             logger.warning(
                 f"bads:gp: Cholesky decomposition has failed. The initial fit on the GP has failed due to the hyp. init."
             )
